@@ -408,7 +408,10 @@ func vfC17Sane(c *vfC17Case) (bool, string) {
 				o, ok := vfLast(it.Fields, c.ids[1:], CheckpointOffsetSuffix)
 				r, ok2 := vfLast(it.Fields, c.ids[1:], CheckpointRunIdSuffix)
 				if !ok || !ok2 || o != strconv.FormatInt(X, 10) || r == "?" {
-					return false, "orphan-not-copy"
+					// the new id's entry (not mapped by the hash) carries the position and the old id's own
+					// entry does not read the same: since D34 (UpdateCheckpoint no longer deletes the entry
+					// it has just written) no precondition excludes this state — it is judged like any other
+					return true, "rekey-new-entry-ahead"
 				}
 			}
 		}
